@@ -30,7 +30,7 @@ KINDS = ('Module', 'ClassDef', 'FunctionDef', 'AsyncFunctionDef')
 
 
 def run(ctx):
-    for fn in (r1_exhaustive_kinds, r2_no_descent, r3_class_level, r3b_reset_ownership, r4_property_accessors, r4b_delegation, r5_main_guard, r6_package_walk, r7_keys, r8_compound_statements_descend, r9_google_tag_pattern):
+    for fn in (r1_exhaustive_kinds, r2_no_descent, r3_class_level, r3b_reset_ownership, r4_property_accessors, r4b_delegation, r5_main_guard, r6_package_walk, r7_keys, r8_compound_statements_descend, r9_google_tag_pattern, r10_collection_options_are_forwarded):
         ctx.rep.rule(fn, ctx)
 
 
@@ -753,12 +753,56 @@ def r9_google_tag_pattern(ctx):
                'the block label pattern decides wrongly for %s: such a block is not split off (with google style its doctests are dropped, with auto the indices shift)' % bad, anchor=f.qualname)
 
 
+def r10_collection_options_are_forwarded(ctx):
+    """CONFIG-FLOW along the collection chain: parse_doctestables hands `style` (and the parser options) to parse_docstr_examples and
+    `analysis`, `exclude`, `ignore_syntax_errors` to package_calldefs, which hands `analysis` to parse_calldefs -- an option that is not handed on
+    silently becomes the callee's default (`auto` style for everybody).  And the walk over a package asks for modules AND package
+    `__init__` files (`with_pkg=True`, `with_mod` left on): otherwise the doctests of every `__init__.py` are never collected"""
+    rep = ctx.rep
+    chain = [('xdoctest.core.parse_doctestables', 'xdoctest.core.parse_docstr_examples'),
+             ('xdoctest.core.parse_doctestables', 'xdoctest.core.package_calldefs'),
+             ('xdoctest.core.package_calldefs', 'xdoctest.core.parse_calldefs')]
+    n = 0
+    for (qa, qb) in chain:
+        fa_, fb = ctx.func(qa), ctx.func(qb)
+        pa = [a.arg for a in fa_.node.args.args + fa_.node.args.kwonlyargs]
+        pb = [a.arg for a in fb.node.args.args + fb.node.args.kwonlyargs]
+        calls = [c for c in walk_scope(fa_.node) if isinstance(c, ast.Call) and ctx.res.resolve_call(fa_, c)[0] == 'repo' and ctx.res.resolve_call(fa_, c)[1][0] is fb]
+        need(calls, 'C07.R10: %s does not call %s' % (fa_.name, fb.name))
+        for c in calls:
+            passed = {k.arg for k in c.keywords if k.arg} | set(pb[:len(c.args)])
+            for opt in pb:
+                if opt in pa:
+                    n += 1
+                    ok = opt in passed
+                    rep.ob('C07.R10', ctx.loc(fa_, c), '%s -> %s(%s=...)' % (fa_.name, fb.name, opt), ok, 'handed on' if ok else
+                           'the option `%s` of %s is not handed on to %s: the callee uses its own default whatever the user chose (for `style` every docstring is then parsed as `auto`)' % (opt, fa_.name, fb.name),
+                           anchor=qa)
+    rep.floor('C07.R10', 'options shared along the collection chain', n, 6)
+    # the package walk
+    fp = ctx.func('xdoctest.core.package_calldefs')
+    walks = [c for c in walk_scope(fp.node) if isinstance(c, ast.Call) and ast.unparse(c.func).endswith('package_modpaths')]
+    need(walks, 'C07.R10: package_calldefs does not walk the package through package_modpaths')
+    fw = ctx.func('xdoctest.static_analysis.package_modpaths')
+    a = fw.node.args
+    dflt = dict(zip([x.arg for x in a.args[len(a.args) - len(a.defaults):]], a.defaults))
+    for c in walks:
+        for opt in ('with_pkg', 'with_mod'):
+            v = next((k.value for k in c.keywords if k.arg == opt), dflt.get(opt))
+            ok = isinstance(v, ast.Constant) and v.value is True
+            rep.ob('C07.R10', ctx.loc(fp, c), 'package walk: %s=%s' % (opt, ctx.src(v) if v is not None else '?'), ok,
+                   'both module files and package __init__ files are visited' if ok else
+                   'the package walk runs with %s off: %s are never collected' % (opt, 'the doctests of package __init__.py files' if opt == 'with_pkg' else 'the module files of the package'), anchor=fp.qualname)
+
+
 # ---------------------------------------------------------------------------
 from ..selftest import fire, silent      # noqa: E402
 
 SA = 'xdoctest/static_analysis.py'
 CO = 'xdoctest/core.py'
 VARIANTS = [
+    fire('style-not-forwarded-to-the-docstring-parser', 'C07.R10', ('xdoctest/core.py', "                    style=style, parser_kw=parser_kw)\n", "                    parser_kw=parser_kw)\n")),
+    fire('package-init-files-not-walked', 'C07.R10', ('xdoctest/core.py', "            pkgpath, with_pkg=True, with_libs=True))\n", "            pkgpath, with_libs=True))\n")),
     fire('example-blocks-by-exact-label', 'C07.R7', ('xdoctest/core.py', "        if type.startswith(example_tags):\n", "        if type in example_tags:\n")),
     fire('subpackage-init-looked-up-under-the-root', 'C07.R6', (SA, "                        path = join(dpath, dname, '__init__.py')\n", "                        path = join(pkgpath, dname, '__init__.py')\n")),
     fire('block-label-rejects-trailing-blanks', 'C07.R9', ('xdoctest/docstr/docscrape_google.py', "') *::? *$'", "') *::?$'")),
